@@ -53,6 +53,7 @@ func (self *Interpreter) execModule(moduleName string, restorePrev bool) *value.
 
 	// add the root scope
 	self.pushScope()
+	self.currentModule.root = self.currentModule.scopes[0]
 
 	// add all scope additions to the root scope
 	for key, val := range self.scopeAdditions {
